@@ -63,6 +63,9 @@ Definition CTOR_KEYS : list string :=
    "second_of_minute"; "second_of_minute_decimal"; "time_zone_hour"; "time_zone_minute";
    "truncated"; "truncated_property"; "num_expanded_year_digits"; "dump_format";
    "truncated_dump_format"; "is_duration"].
+Definition exn_of_perr (e : perr) : pyexn :=
+  match e with ESyntax => ISO8601SyntaxError | EBadInput => BadInputError | EValue => ValueError
+             | EUnmodelled => NotTranslated end.
 Definition zn_args (zh zm : option Z) : option (Z * option Z) :=
   match zh, zm with
   | None, None => None | Some h, m => Some (h, m) | None, Some m => Some (0%Z, Some m) end.
@@ -85,8 +88,7 @@ Definition tp_ctor (md : mode) (kw : pyval) : exc pyval :=
       match construct md year month dom doy week dow hour hdec mi mdec sec sdec (zn_args zh zm)
                       tr tprop (match ned with Some n => n | None => 0%Z end) fmt dur with
       | POk p => Ok (VPoint p)
-      | PErr EBadInput => Raise BadInputError
-      | PErr _ => Raise NotTranslated end
+      | PErr e => Raise (exn_of_perr e) end
   | _ => Raise TypeError end.
 
 Definition mops (md : mode) (cfg : pcfg) : parser_ops :=
@@ -398,3 +400,645 @@ Definition code_parser (cfg : pcfg) : pyParser :=
 (* TimePointParser(..).parse(text, dump_as_parsed=asp), printed as the line protocol prints it *)
 Definition run_parse (md : mode) (cfg : pcfg) (text : string) (asp : bool) : string :=
   sh_pres sh_ptp (res_of (py_parse (mops md cfg) (code_parser cfg) (VStr text) VNone (VBool asp) (VBool false))).
+
+(* ------------------------------------------------------------------ *)
+(* 7. _create_timepoint_from_info from its first loop on (segments L1, L2) *)
+(* ------------------------------------------------------------------ *)
+Local Open Scope list_scope.
+
+(* ---------------- A. dictionaries, continued ---------------- *)
+Definition keys (d : dict) : list string := map fst d.
+Definition mapv (f : string -> pyval -> pyval) (d : dict) : dict := map (fun kv => (fst kv, f (fst kv) (snd kv))) d.
+
+Lemma dict_get_app : forall k a b, dict_get k (a ++ b) = match dict_get k a with Some v => Some v | None => dict_get k b end.
+Proof. induction a as [|[x y] a IH]; intros b; [reflexivity|]. cbn [app dict_get]. destruct (String.eqb k x); [reflexivity|apply IH]. Qed.
+Lemma dict_get_mapv : forall f k d, dict_get k (mapv f d) = option_map (f k) (dict_get k d).
+Proof. induction d as [|[x y] d IH]; [reflexivity|]. cbn [mapv map dict_get fst snd].
+  destruct (String.eqb k x) eqn:E; [|exact IH]. apply String.eqb_eq in E. subst x. reflexivity. Qed.
+Lemma dict_get_notin : forall k d, ~ In k (keys d) -> dict_get k d = None.
+Proof. induction d as [|[x y] d IH]; intros H; [reflexivity|]. cbn [dict_get]. cbn [keys map fst In] in H.
+  destruct (String.eqb k x) eqn:E. { apply String.eqb_eq in E. subst x. exfalso. apply H. left. reflexivity. }
+  apply IH. intros I. apply H. right. exact I. Qed.
+Lemma dict_get_in : forall k d, In k (keys d) -> dict_get k d <> None.
+Proof. induction d as [|[x y] d IH]; intros H; [destruct H|]. cbn [dict_get]. cbn [keys map fst In] in H.
+  destruct (String.eqb k x) eqn:E; [discriminate|]. apply IH. destruct H as [H|H]; [|exact H].
+  subst x. rewrite String.eqb_refl in E. discriminate. Qed.
+Lemma keys_mapv : forall f d, keys (mapv f d) = keys d.
+Proof. intros. unfold keys, mapv. rewrite map_map. reflexivity. Qed.
+
+Lemma dict_set_app_notin : forall k v a b, ~ In k (keys a) -> dict_set k v (a ++ b) = a ++ dict_set k v b.
+Proof. induction a as [|[x y] a IH]; intros b H; [reflexivity|]. cbn [app dict_set]. cbn [keys map fst In] in H.
+  destruct (String.eqb k x) eqn:E. { apply String.eqb_eq in E. subst x. exfalso. apply H. left. reflexivity. }
+  f_equal. apply IH. intros I. apply H. right. exact I. Qed.
+
+Lemma keys_set : forall k v d, keys (dict_set k v d) = if dict_has k d then keys d else keys d ++ [k].
+Proof. unfold keys, dict_has. induction d as [|[x y] d IH]; [reflexivity|]. cbn [dict_set dict_get].
+  destruct (String.eqb k x) eqn:E; [reflexivity|]. cbn [map fst]. rewrite IH.
+  destruct (dict_get k d); reflexivity. Qed.
+Lemma keys_del_in : forall k x d, In x (keys (dict_del k d)) -> In x (keys d) /\ x <> k.
+Proof. induction d as [|[a b] d IH]; intros H; [destruct H|]. cbn [dict_del] in H.
+  destruct (String.eqb k a) eqn:E.
+  - destruct (IH H) as [I N]. split; [right; exact I|exact N].
+  - cbn [keys map fst In] in *. destruct H as [H|H].
+    + subst x. split; [left; reflexivity|]. intros C. subst a. rewrite String.eqb_refl in E. discriminate.
+    + destruct (IH H) as [I N]. split; [right; exact I|exact N]. Qed.
+Lemma NoDup_del : forall k d, NoDup (keys d) -> NoDup (keys (dict_del k d)).
+Proof. induction d as [|[a b] d IH]; intros H; [constructor|]. cbn [dict_del]. inversion H; subst.
+  destruct (String.eqb k a); [apply IH; assumption|]. cbn [keys map fst]. constructor; [|apply IH; assumption].
+  intros I. apply keys_del_in in I. destruct I as [I _]. contradiction. Qed.
+Lemma NoDup_snoc : forall (x : string) l, NoDup l -> ~ In x l -> NoDup (l ++ [x]).
+Proof. induction l as [|a l IH]; intros H N; cbn [app]. { constructor; [intros []|constructor]. }
+  inversion H; subst. constructor.
+  - intros I. apply in_app_iff in I. destruct I as [I|[I|[]]]; [contradiction|]. subst a. apply N. left. reflexivity.
+  - apply IH; [assumption|]. intros I. apply N. right. exact I. Qed.
+Lemma NoDup_set : forall k v d, NoDup (keys d) -> NoDup (keys (dict_set k v d)).
+Proof. intros k v d H. rewrite keys_set. unfold dict_has. destruct (dict_get k d) eqn:E; [exact H|].
+  apply NoDup_snoc; [exact H|]. intros I. apply dict_get_in in I. contradiction. Qed.
+
+(* d.update(b) for b without repeated keys *)
+Lemma dict_get_update : forall k b a, NoDup (keys b) ->
+  dict_get k (dict_update a b) = match dict_get k b with Some v => Some v | None => dict_get k a end.
+Proof. unfold dict_update. induction b as [|[x y] b IH]; intros a H; [reflexivity|].
+  cbn [fold_left fst snd dict_get]. inversion H; subst. rewrite IH by assumption. rewrite dict_get_set.
+  destruct (String.eqb k x) eqn:E; [|reflexivity]. apply String.eqb_eq in E. subst x.
+  rewrite (dict_get_notin k b) by assumption. reflexivity. Qed.
+
+(* key sets, by lookups *)
+Definition keysP (K : list string) (d : dict) : Prop := forall k, dict_get k d <> None -> mem k K = true.
+Lemma keysP_forallb : forall K d, keysP K d -> forallb (fun kv => mem (fst kv) K) d = true.
+Proof. intros K d H. apply forallb_forall. intros [k v] I. cbn [fst]. apply H. apply dict_get_in.
+  unfold keys. apply in_map_iff. exists (k, v). split; [reflexivity|exact I]. Qed.
+
+(* ---------------- B. loops over the items of a dictionary ---------------- *)
+Definition item (kv : string * pyval) : pyval := VTuple [VStr (fst kv); snd kv].
+Lemma py_items_dict : forall d, py_items (VDict d) = Ok (VList (map item d)).
+Proof. reflexivity. Qed.
+
+(* a loop whose body performs  state[name] := g state[name] key value  and goes on *)
+Lemma py_for_fold : forall (name : string) (P : string -> pyval -> Prop) (g : dict -> string -> pyval -> dict) body,
+  (forall k v d st, P k v -> sget name st = VDict d ->
+     exists st', body (item (k, v)) st = Ok (LNext st') /\ sget name st' = VDict (g d k v)) ->
+  forall L rest d st, Forall (fun kv => P (fst kv) (snd kv)) L -> sget name st = VDict d ->
+    exists st', py_for (map item L ++ rest) body st = py_for rest body st' /\
+                sget name st' = VDict (fold_left (fun d kv => g d (fst kv) (snd kv)) L d).
+Proof.
+  intros name P g body HB. induction L as [|[k v] L IH]; intros rest d st HP HS.
+  - exists st. split; [reflexivity|exact HS].
+  - inversion HP; subst. cbn [fst snd] in *. destruct (HB k v d st H1 HS) as (st1 & E1 & S1).
+    destruct (IH rest (g d k v) st1 H2 S1) as (st2 & E2 & S2). exists st2. split; [|exact S2].
+    cbn [map app py_for]. rewrite E1. exact E2.
+Qed.
+
+(* a fold whose step rewrites the entry of its own key is a map over the values *)
+Lemma fold_own_mapv : forall (g : dict -> string -> pyval -> dict) (f : string -> pyval -> pyval) (Q : string -> pyval -> Prop),
+  (forall done k v rest, Q k v -> ~ In k (keys done) -> g (done ++ (k, v) :: rest) k v = done ++ (k, f k v) :: rest) ->
+  forall todo done tail, NoDup (keys (done ++ todo)) -> Forall (fun kv => Q (fst kv) (snd kv)) todo ->
+  fold_left (fun d kv => g d (fst kv) (snd kv)) todo (done ++ todo ++ tail) = done ++ mapv f todo ++ tail.
+Proof.
+  intros g f Q HG. induction todo as [|[k v] todo IH]; intros done tail H HQ; [reflexivity|].
+  cbn [fold_left fst snd mapv map]. inversion HQ; subst. cbn [fst snd] in *.
+  assert (N : ~ In k (keys done)).
+  { unfold keys in *. rewrite map_app in H. cbn [map fst] in H. apply NoDup_remove_2 in H.
+    intros I. apply H. apply in_app_iff. left. exact I. }
+  cbn [app]. rewrite HG by assumption.
+  change (done ++ (k, f k v) :: todo ++ tail) with (done ++ [(k, f k v)] ++ todo ++ tail).
+  rewrite app_assoc. rewrite IH.
+  - rewrite <- app_assoc. reflexivity.
+  - unfold keys in *. rewrite <- app_assoc. rewrite !map_app in *. exact H.
+  - assumption.
+Qed.
+Lemma dict_set_own : forall done k v x rest, ~ In k (keys done) ->
+  dict_set k x (done ++ (k, v) :: rest) = done ++ (k, x) :: rest.
+Proof. intros. rewrite dict_set_app_notin by assumption. cbn [dict_set]. rewrite String.eqb_refl. reflexivity. Qed.
+
+(* ---------------- C. segment L1: int() of every date value ---------------- *)
+Definition iconv (v : pyval) : pyval := match py_int v with Ok x => x | Raise _ => v end.
+
+Definition istep (d : dict) (k : string) (v : pyval) : dict :=
+  match py_int v with Ok x => dict_set k x d | Raise _ => d end.
+Lemma istep_own : forall done k v rest, True -> ~ In k (keys done) ->
+  istep (done ++ (k, v) :: rest) k v = done ++ (k, iconv v) :: rest.
+Proof. intros done k v rest _ N. unfold istep, iconv. destruct (py_int v); [apply dict_set_own; exact N|reflexivity]. Qed.
+
+Lemma gen8_L1 : forall ops self D' fmtv dur yp TI tfv TP, NoDup (keys D') ->
+  py__create_timepoint_from_info__L1 ops self (VDict D') fmtv (VDict []) dur yp TI tfv TP =
+  py__create_timepoint_from_info__L2 ops self (VDict (mapv (fun _ => iconv) D')) fmtv
+    (VDict (dict_update [] (mapv (fun _ => iconv) D'))) dur yp TI tfv TP.
+Proof.
+  intros ops self D' fmtv dur yp TI tfv TP ND.
+  unfold py__create_timepoint_from_info__L1.
+  cbn [py_items py_iter bind].
+  change (map (fun kv : string * pyval => VTuple [VStr (fst kv); snd kv]) D') with (map item D').
+  rewrite <- (app_nil_r (map item D')).
+  match goal with |- context [py_for _ ?B ?st] =>
+    assert (HB : forall k v d st0, True -> sget "date_info" st0 = VDict d ->
+              exists st', B (item (k, v)) st0 = Ok (LNext st') /\
+                          sget "date_info" st' = VDict (istep d k v));
+    [ | destruct (py_for_fold "date_info" (fun _ _ => True) istep B HB D' [] D' st) as (st' & E & S);
+        [ apply Forall_forall; intros; exact I | reflexivity | ] ]
+  end.
+  - intros k v d st0 _ HS. cbv beta. rewrite HS. unfold istep.
+    destruct v as [|b|z|q|s|l|l|dd|ts|e|p]; cbn; try (eexists; split; reflexivity).
+    unfold py_int_str. destruct (read_Z s); cbn; eexists; split; reflexivity.
+  - rewrite E. cbn [py_for bind]. cbv zeta. rewrite S.
+    pose proof (fold_own_mapv istep (fun _ => iconv) (fun _ _ => True) istep_own D' [] []) as F.
+    cbn [app] in F. rewrite !app_nil_r in F. rewrite F; [|exact ND|apply Forall_forall; intros; exact I].
+    cbn [py_update bind]. reflexivity.
+Qed.
+
+(* ---------------- D. segment L2, part a: the code up to the constructor call ---------------- *)
+Definition tval (k : string) (v : pyval) : exc pyval :=
+  if ends_with "_decimal" k then py_add (VStr "0.") v else Ok v.
+Definition tfl (v : pyval) : pyval := match py_float v with Ok x => x | Raise _ => v end.
+Definition isZ (v : pyval) : bool := match v with VStr s => String.eqb s "Z" | _ => false end.
+Definition tstep (d : dict) (k : string) (v : pyval) : dict :=
+  match tval k v with
+  | Raise _ => d
+  | Ok v1 => if String.eqb k "time_zone_utc" && isZ (tfl v1)
+             then dict_set "time_zone_minute" (VInt 0) (dict_set "time_zone_hour" (VInt 0) (dict_del k d))
+             else dict_set k (tfl v1) d end.
+Definition tP (k : string) (v : pyval) : Prop := ends_with "_decimal" k = false \/ exists s, v = VStr s.
+
+Definition opt_set (k : string) (v : pyval) (d : dict) : dict := if py_is_none v then d else dict_set k v d.
+Definition trset (d : dict) : dict :=
+  match dict_get "truncated" d with
+  | Some v => if py_truthy v then dict_set "truncated" (VBool true) (dict_del "truncated" d) else dict_del "truncated" d
+  | None => d end.
+Definition eff_fmt (fmtv sdf : pyval) : pyval :=
+  if py_is_none fmtv then (if py_truthy sdf then sdf else fmtv) else fmtv.
+Definition fin_dict (sdf fmtv tfv TP dur : pyval) (info2 : dict) : dict :=
+  dict_set "is_duration" dur
+    (opt_set "truncated_dump_format" tfv (opt_set "dump_format" (eff_fmt fmtv sdf)
+       (opt_set "truncated_property" TP (trset info2)))).
+
+Lemma float_catch : forall v e, py_float v = Raise e -> (false || exn_isa e TypeError || exn_isa e ValueError) = true.
+Proof.
+  intros v e. destruct v; cbn; try (intros H; inversion H; reflexivity).
+  unfold py_float_str. destruct (str_prefix "0." s); [destruct (all_digits8 s0)|destruct (read_Z s)];
+    intros H; inversion H; reflexivity.
+Qed.
+
+Definition tconv (k : string) (v : pyval) : pyval := match tval k v with Ok v1 => tfl v1 | Raise _ => v end.
+Definition UTC : string := "time_zone_utc".
+Definition tQ (k : string) (v : pyval) : Prop := (exists s, v = VStr s) /\ String.eqb k "time_zone_utc" = false.
+Lemma tstep_own : forall done k v rest, tQ k v -> ~ In k (keys done) ->
+  tstep (done ++ (k, v) :: rest) k v = done ++ (k, tconv k v) :: rest.
+Proof. intros done k v rest [[s E] K] N. subst v. unfold tstep, tconv, tval.
+  destruct (ends_with "_decimal" k); cbn [py_add]; rewrite K; cbn [andb]; apply dict_set_own; exact N. Qed.
+(* the time dictionary after the float() loop *)
+Definition TIf (te : env) (z : zinfo) : dict :=
+  fold_left (fun d kv => tstep d (fst kv) (snd kv)) (zdict z) (mapv tconv (zenv te) ++ zdict z).
+
+Lemma keys_zenv : forall e, keys (zenv e) = map fst e.
+Proof. intros. unfold keys, zenv. rewrite map_map. reflexivity. Qed.
+
+Lemma zone_items : forall (B : pyval -> dict -> exc lctl),
+  (forall k v d st0, tP k v -> (String.eqb k "time_zone_utc" = false \/ dict_has k d = true) ->
+     sget "time_info" st0 = VDict d ->
+     exists st', B (item (k, v)) st0 = Ok (LNext st') /\ sget "time_info" st' = VDict (tstep d k v)) ->
+  forall te z st', lookup_env "time_zone_utc" te = None ->
+  sget "time_info" st' = VDict (mapv tconv (zenv te) ++ zdict z) ->
+  exists st2, py_for (map item (zdict z)) B st' = Ok (LDone st2) /\ sget "time_info" st2 = VDict (TIf te z).
+Proof.
+  intros B HB te z st' NU S. unfold TIf.
+  set (A := mapv tconv (zenv te)) in *.
+  destruct z as [| |h [m|]]; cbn [zdict map py_for fold_left fst snd] in *.
+  - exists st'. split; [reflexivity|exact S].
+  - destruct (HB "time_zone_utc" (VStr "Z") (A ++ [("time_zone_utc", VStr "Z")]) st') as (st2 & E2 & S2); [left; reflexivity| |exact S|].
+    + right. unfold dict_has, A. rewrite dict_get_app, dict_get_mapv, dict_get_zenv, NU. reflexivity.
+    + rewrite E2. exists st2. split; [reflexivity|exact S2].
+  - destruct (HB "time_zone_hour" (zv h) (A ++ [("time_zone_hour", zv h); ("time_zone_minute", zv m)]) st') as (st2 & E2 & S2); [left; reflexivity|left; reflexivity|exact S|].
+    rewrite E2.
+    destruct (HB "time_zone_minute" (zv m) (tstep (A ++ [("time_zone_hour", zv h); ("time_zone_minute", zv m)]) "time_zone_hour" (zv h)) st2) as (st3 & E3 & S3); [left; reflexivity|left; reflexivity|exact S2|].
+    rewrite E3. exists st3. split; [reflexivity|exact S3].
+  - destruct (HB "time_zone_hour" (zv h) (A ++ [("time_zone_hour", zv h)]) st') as (st2 & E2 & S2); [left; reflexivity|left; reflexivity|exact S|].
+    rewrite E2. exists st2. split; [reflexivity|exact S2].
+Qed.
+
+Lemma gen8_L2a : forall ops self Dany fmtv I dur yp te z tfv TP,
+  NoDup (map fst te) -> lookup_env "time_zone_utc" te = None ->
+  dict_has "is_duration" (opt_set "truncated_dump_format" tfv (opt_set "dump_format" (eff_fmt fmtv (f_dump_format self))
+       (opt_set "truncated_property" TP (trset (dict_update I (TIf te z)))))) = false ->
+  py__create_timepoint_from_info__L2 ops self Dany fmtv (VDict I) dur yp (VDict (zenv te ++ zdict z)) tfv TP =
+  op_TimePoint ops (VDict (fin_dict (f_dump_format self) fmtv tfv TP dur (dict_update I (TIf te z)))).
+Proof.
+  intros ops self Dany fmtv I dur yp te z tfv TP ND NU HD.
+  assert (HQ : Forall (fun kv => tQ (fst kv) (snd kv)) (zenv te)).
+  { apply Forall_forall. intros [k v] IN. unfold zenv in IN. apply in_map_iff in IN. destruct IN as ([a b] & E0 & IN).
+  cbn [fst snd] in E0. injection E0 as E1 E2. subst k v. cbn [fst snd]. split; [eexists; reflexivity|].
+  destruct (String.eqb a "time_zone_utc") eqn:EK; [|reflexivity]. apply String.eqb_eq in EK. subst a. exfalso.
+  assert (X : lookup_env "time_zone_utc" te <> None).
+  { clear - IN. induction te as [|[x y] te IH]; [destruct IN|]. cbn [lookup_env]. destruct (String.eqb "time_zone_utc" x) eqn:F; [discriminate|].
+    apply IH. destruct IN as [IN|IN]; [|exact IN]. inversion IN; subst. rewrite String.eqb_refl in F. discriminate. }
+  contradiction. }
+  unfold py__create_timepoint_from_info__L2.
+  cbn [py_items py_iter py_list bind].
+  change (map (fun kv : string * pyval => VTuple [VStr (fst kv); snd kv]) (zenv te ++ zdict z)) with (map item (zenv te ++ zdict z)).
+  rewrite map_app.
+  match goal with |- context [py_for _ ?B ?st] =>
+    assert (HB : forall k v d st0, tP k v -> (String.eqb k "time_zone_utc" = false \/ dict_has k d = true) ->
+              sget "time_info" st0 = VDict d ->
+              exists st', B (item (k, v)) st0 = Ok (LNext st') /\
+                          sget "time_info" st' = VDict (tstep d k v));
+    [ | assert (HB' : forall k v d st0, tQ k v -> sget "time_info" st0 = VDict d ->
+              exists st', B (item (k, v)) st0 = Ok (LNext st') /\ sget "time_info" st' = VDict (tstep d k v));
+        [ intros k v d st0 [[s0 E0] K0] HS0; apply HB; [right; exists s0; exact E0|left; exact K0|exact HS0]
+        | destruct (py_for_fold "time_info" tQ tstep B HB' (zenv te) (map item (zdict z)) (zenv te ++ zdict z) st) as (st' & E & S);
+          [ exact HQ | reflexivity | ] ] ]
+  end.
+  - intros k v d st0 HPkv HK HS. cbv beta zeta. rewrite HS. unfold tstep, tval.
+    cbn [item fst snd py_unpack2 seq_of bind py_endswith py_truthy].
+    assert (POP : String.eqb k "time_zone_utc" = true -> exists x, dict_get k d = Some x).
+    { intros K. destruct HK as [HK|HK]; [congruence|]. unfold dict_has in HK. destruct (dict_get k d); [eexists; reflexivity|discriminate]. }
+    destruct (ends_with "_decimal" k) eqn:ED.
+    + destruct HPkv as [C|[s C]]; [congruence|]. subst v. cbn [py_add bind].
+      unfold tfl. destruct (py_float (VStr ("0." ++ s))) as [x|e] eqn:EF; cbn [py_try bind sget dict_get String.eqb Ascii.eqb Bool.eqb].
+      * cbn [py_eq num_of bind py_truthy]. destruct (String.eqb k "time_zone_utc") eqn:EK; cbn [andb].
+        { destruct (POP eq_refl) as [x0 PX]. destruct x; cbn; try destruct (String.eqb s0 "Z"); cbn; rewrite ?PX; cbn; eexists; split; reflexivity. }
+        { cbn. eexists; split; reflexivity. }
+      * rewrite (float_catch _ _ EF). cbn [py_eq num_of bind py_truthy isZ].
+        destruct (String.eqb k "time_zone_utc") eqn:EK; cbn [andb].
+        { destruct (POP eq_refl) as [x0 PX]. cbn. destruct (String.eqb ("0." ++ s) "Z"); cbn; rewrite ?PX; cbn; eexists; split; reflexivity. }
+        { cbn. eexists; split; reflexivity. }
+    + unfold tfl. destruct (py_float v) as [x|e] eqn:EF; cbn [py_try bind sget dict_get String.eqb Ascii.eqb Bool.eqb].
+      * cbn [py_eq num_of bind py_truthy]. destruct (String.eqb k "time_zone_utc") eqn:EK; cbn [andb].
+        { destruct (POP eq_refl) as [x0 PX]. destruct x; cbn; try destruct (String.eqb s "Z"); cbn; rewrite ?PX; cbn; eexists; split; reflexivity. }
+        { cbn. eexists; split; reflexivity. }
+      * rewrite (float_catch _ _ EF). cbn [py_eq num_of bind py_truthy isZ].
+        destruct (String.eqb k "time_zone_utc") eqn:EK; cbn [andb].
+        { destruct (POP eq_refl) as [x0 PX]. destruct v; cbn; try destruct (String.eqb s "Z"); cbn; rewrite ?PX; cbn; eexists; split; reflexivity. }
+        { cbn. eexists; split; reflexivity. }
+  - rewrite E. clear E.
+    pose proof (fold_own_mapv tstep tconv tQ tstep_own (zenv te) [] (zdict z)) as F. cbn [app] in F.
+    rewrite F in S; [| rewrite keys_zenv; exact ND | exact HQ ]. clear F.
+    destruct (zone_items _ HB te z st' NU S) as (st2 & E2 & S2). rewrite E2. clear E2 S HB HB' HQ.
+    cbn [bind]. cbv zeta. rewrite S2. clear S2.
+    cbn [py_update bind py_pop].
+    set (info2 := dict_update I (TIf te z)) in *.
+    unfold fin_dict, trset in *.
+    assert (TN : forall v, py_truthy v = true -> py_is_none v = false) by (intros v; destruct v; cbn; congruence).
+    destruct (dict_get "truncated" info2) as [tv|] eqn:ET; cbn [bind py_truthy];
+      [destruct (py_truthy tv); cbn [bind py_setitem]|];
+      unfold opt_set, eff_fmt in *;
+      destruct (py_is_none TP); destruct (py_is_none fmtv) eqn:EF;
+      destruct (py_truthy (f_dump_format self)) eqn:ESD; try rewrite (TN _ ESD) in *;
+      destruct (py_is_none tfv);
+      repeat (rewrite EF in * );
+      cbn [negb bind py_setitem py_truthy py_is_none py_update dict_update fold_left fst snd py_kwargs kw_merge];
+      rewrite ?EF, ?ESD; cbn [negb bind py_setitem py_truthy py_is_none py_update dict_update fold_left fst snd py_kwargs kw_merge];
+      rewrite ?EF, ?ESD, ?(TN _ ESD); cbn [negb bind py_setitem py_truthy py_is_none py_update dict_update fold_left fst snd py_kwargs kw_merge];
+      rewrite ?HD; cbn [bind];
+      match goal with |- bind ?m _ = _ => destruct m; reflexivity end.
+Qed.
+
+(* ---------------- E. segment L2, part b: the keyword dictionary against the model ---------------- *)
+Lemma dict_get_opt_set : forall k k' v d,
+  dict_get k (opt_set k' v d) = if String.eqb k k' then (if py_is_none v then dict_get k d else Some v) else dict_get k d.
+Proof. intros. unfold opt_set. destruct (py_is_none v); [destruct (String.eqb k k'); reflexivity|apply dict_get_set]. Qed.
+Lemma dict_get_trset : forall k d,
+  dict_get k (trset d) = if String.eqb k "truncated"
+                         then match dict_get "truncated" d with Some v => if py_truthy v then Some (VBool true) else None | None => None end
+                         else dict_get k d.
+Proof. intros. unfold trset. destruct (String.eqb k "truncated") eqn:E.
+  - apply String.eqb_eq in E. subst k. destruct (dict_get "truncated" d) as [v|] eqn:G; [|exact G].
+    destruct (py_truthy v); [rewrite dict_get_set|rewrite dict_get_del]; reflexivity.
+  - destruct (dict_get "truncated" d) as [v|]; [|reflexivity].
+    destruct (py_truthy v); rewrite ?dict_get_set, dict_get_del, E; reflexivity. Qed.
+
+Lemma tstep_utc : forall d, tstep d "time_zone_utc" (VStr "Z") =
+  dict_set "time_zone_minute" (VInt 0) (dict_set "time_zone_hour" (VInt 0) (dict_del "time_zone_utc" d)).
+Proof. reflexivity. Qed.
+Lemma tstep_hour : forall d v, tstep d "time_zone_hour" v = dict_set "time_zone_hour" (tfl v) d.
+Proof. reflexivity. Qed.
+Lemma tstep_minute : forall d v, tstep d "time_zone_minute" v = dict_set "time_zone_minute" (tfl v) d.
+Proof. reflexivity. Qed.
+
+Definition ZONE3 : list string := ["time_zone_hour"; "time_zone_minute"; "time_zone_utc"].
+Definition zlook (z : zinfo) (k : string) : option pyval :=
+  if String.eqb k "time_zone_hour" then
+    match z with ZNone => None | ZUtc => Some (VInt 0) | ZVal h _ => Some (tfl (zv h)) end
+  else if String.eqb k "time_zone_minute" then
+    match z with ZNone => None | ZUtc => Some (VInt 0) | ZVal _ m => option_map (fun x => tfl (zv x)) m end
+  else None.
+Definition tlook (te : env) (k : string) : option pyval := option_map (fun s => tconv k (VStr s)) (lookup_env k te).
+
+Lemma lookup_none_notin : forall k e, lookup_env k e = None -> ~ In k (map fst e).
+Proof. induction e as [|[a b] e IH]; intros H I; [destruct I|]. cbn [lookup_env] in H. cbn [map fst In] in I.
+  destruct (String.eqb k a) eqn:E; [discriminate|]. destruct I as [I|I]; [subst a; rewrite String.eqb_refl in E; discriminate|].
+  exact (IH H I). Qed.
+
+Lemma TIf_look : forall te z k,
+  lookup_env "time_zone_hour" te = None -> lookup_env "time_zone_minute" te = None -> lookup_env "time_zone_utc" te = None ->
+  dict_get k (TIf te z) = if mem k ZONE3 then zlook z k else tlook te k.
+Proof.
+  intros te z k H1 H2 H3. unfold TIf, tlook, zlook.
+  assert (A : forall x, dict_get x (mapv tconv (zenv te)) = option_map (fun s => tconv x (VStr s)) (lookup_env x te)).
+  { intros x. rewrite dict_get_mapv, dict_get_zenv. destruct (lookup_env x te); reflexivity. }
+  destruct z as [| |h [m|]]; cbn [zdict fold_left fst snd]; rewrite ?tstep_utc, ?tstep_hour, ?tstep_minute;
+    rewrite ?dict_get_set, ?dict_get_del, ?dict_get_app, ?A; cbn [dict_get mem existsb ZONE3 orb option_map];
+    destruct (String.eqb k "time_zone_hour") eqn:E1; try (apply String.eqb_eq in E1; subst k; rewrite ?H1; reflexivity);
+    destruct (String.eqb k "time_zone_minute") eqn:E2; try (apply String.eqb_eq in E2; subst k; rewrite ?H2; reflexivity);
+    destruct (String.eqb k "time_zone_utc") eqn:E3; try (apply String.eqb_eq in E3; subst k; rewrite ?H3; reflexivity);
+    cbn [orb]; destruct (lookup_env k te); reflexivity.
+Qed.
+
+Lemma NoDup_app_disj : forall (a b : list string), NoDup a -> NoDup b -> (forall x, In x a -> ~ In x b) -> NoDup (a ++ b).
+Proof. induction a as [|x a IH]; intros b Ha Hb D; [exact Hb|]. cbn [app]. inversion Ha; subst. constructor.
+  - intros I. apply in_app_iff in I. destruct I as [I|I]; [contradiction|]. exact (D x (or_introl eq_refl) I).
+  - apply IH; [assumption|assumption|]. intros y I. apply D. right. exact I. Qed.
+
+Lemma TIf_nodup : forall te z, NoDup (map fst te) ->
+  lookup_env "time_zone_hour" te = None -> lookup_env "time_zone_minute" te = None -> lookup_env "time_zone_utc" te = None ->
+  NoDup (keys (TIf te z)).
+Proof.
+  intros te z ND H1 H2 H3. unfold TIf.
+  assert (B : NoDup (keys (mapv tconv (zenv te) ++ zdict z))).
+  { unfold keys. rewrite map_app. apply NoDup_app_disj.
+    - fold (keys (mapv tconv (zenv te))). rewrite keys_mapv, keys_zenv. exact ND.
+    - destruct z as [| |h [m|]]; cbn; repeat constructor; cbn; intuition discriminate.
+    - fold (keys (mapv tconv (zenv te))). rewrite keys_mapv, keys_zenv. intros x I J.
+      apply lookup_none_notin in H1. apply lookup_none_notin in H2. apply lookup_none_notin in H3.
+      destruct z as [| |h [m|]]; cbn in J; intuition (subst; contradiction). }
+  destruct z as [| |h [m|]]; cbn [zdict fold_left fst snd] in *; rewrite ?tstep_utc, ?tstep_hour, ?tstep_minute;
+    repeat first [apply NoDup_set | apply NoDup_del]; exact B.
+Qed.
+
+
+Lemma all_digits8_eq : forall s, all_digits8 s = all_digits s.
+Proof. induction s as [|c s IH]; [reflexivity|]. cbn [all_digits8 all_digits]. rewrite IH. reflexivity. Qed.
+Lemma digits_no_prefix : forall s, all_digits s = true -> str_prefix "0." s = None.
+Proof.
+  intros [|c [|d r]] H; cbn [str_prefix]; try reflexivity.
+  - destruct (Ascii.eqb "0" c); reflexivity.
+  - destruct (Ascii.eqb "0" c); [|reflexivity]. cbn [all_digits] in H.
+    apply andb_true_iff in H. destruct H as [_ H]. apply andb_true_iff in H. destruct H as [H _].
+    destruct (Ascii.eqb "." d) eqn:E; [|reflexivity]. apply Ascii.eqb_eq in E. subst d. discriminate H.
+Qed.
+Lemma tfl_digits : forall s, digits_plus s = true -> tfl (VStr s) = VFloat (qz (dnum s)).
+Proof. intros s H. unfold tfl. cbn [py_float]. unfold py_float_str.
+  assert (A : all_digits s = true) by (unfold digits_plus in H; apply andb_true_iff in H; apply H).
+  rewrite (digits_no_prefix s A), (read_Z_digits s H). reflexivity. Qed.
+Lemma tfl_dec : forall s, digits_plus s = true -> tfl (VStr ("0." ++ s)%string) = VFloat (frac_of s).
+Proof. intros s H. unfold tfl. cbn [py_float]. unfold py_float_str. cbn [str_prefix String.append Ascii.eqb Bool.eqb].
+  assert (A : all_digits s = true) by (unfold digits_plus in H; apply andb_true_iff in H; apply H).
+  rewrite all_digits8_eq, A. unfold frac8, frac_of. rewrite (read_Z_digits s H). reflexivity. Qed.
+Lemma qis_int_qz : forall n, qis_int (qz n) = true.
+Proof. intros n. unfold qis_int, qz. rewrite Qfloor_Z. apply Qeq_bool_iff. reflexivity. Qed.
+Lemma Qfloor_qz : forall n, Qfloor (qz n) = n.
+Proof. intros n. unfold qz. apply Qfloor_Z. Qed.
+
+Definition TIME_IN : list string := TIME_KEYS ++ ["truncated"].
+Definition DATE_OUT : list string :=
+  ["year"; "month_of_year"; "day_of_month"; "day_of_year"; "week_of_year"; "day_of_week"; "truncated";
+   "num_expanded_year_digits"].
+(* the literal a "truncated" group of a time form captures: not a number, not empty *)
+Definition trunc_time_ok (te : env) : Prop :=
+  forall s, lookup_env "truncated" te = Some s -> tfl (VStr s) = VStr s /\ String.eqb s "" = false.
+Definition zfield_ok (v : string + Z) : Prop := match v with inl s => digits_plus s = true | inr _ => True end.
+Definition zdigits (z : zinfo) : Prop :=
+  match z with ZVal h m => zfield_ok h /\ match m with Some x => zfield_ok x | None => True end | _ => True end.
+Definition zval (v : string + Z) : Z := match v with inl s => dnum s | inr z => z end.
+Definition zn_val (z : zinfo) : option (Z * option Z) :=
+  match z with ZNone => None | ZUtc => Some (0, Some 0)%Z | ZVal h m => Some (zval h, option_map zval m) end.
+Lemma zn_of_digits : forall z, zdigits z -> zn_of z = POk (zn_val z).
+Proof.
+  intros [| |h m] H; try reflexivity. destruct H as [Hh Hm]. cbn [zn_of zn_val].
+  assert (F : forall v, zfield_ok v -> zfield v = POk (zval v)).
+  { intros [s|n] Hv; [|reflexivity]. cbn [zfield zval]. unfold digits_to_Z. rewrite (read_Z_digits s Hv). reflexivity. }
+  rewrite (F h Hh). cbn [pbind]. destruct m as [x|]; [|reflexivity]. rewrite (F x Hm). reflexivity.
+Qed.
+Lemma tfl_zv : forall v, zfield_ok v -> tfl (zv v) = VFloat (qz (zval v)).
+Proof. intros [s|n] H; [apply tfl_digits; exact H|reflexivity]. Qed.
+Definition fmt_eff (fmt dfmt : option string) : string :=
+  match fmt with Some s => s | None => match dfmt with Some s => s | None => "" end end.
+
+Theorem gen8_L2 : forall md cfg dfs tfs zfs dfmt Dany fmt I dur yp te z tfmt tp
+    (yr mo dom doy wk dow nedo : option Z) (trI : bool),
+  keysP DATE_OUT I ->
+  dict_get "year" I = option_map VInt yr -> dict_get "month_of_year" I = option_map VInt mo ->
+  dict_get "day_of_month" I = option_map VInt dom -> dict_get "day_of_year" I = option_map VInt doy ->
+  dict_get "week_of_year" I = option_map VInt wk -> dict_get "day_of_week" I = option_map VInt dow ->
+  dict_get "num_expanded_year_digits" I = option_map VInt nedo ->
+  truthy_opt (dict_get "truncated" I) = trI ->
+  NoDup (map fst te) -> (forall k, lookup_env k te <> None -> mem k TIME_IN = true) ->
+  digit_env TIME_KEYS te -> trunc_time_ok te -> zdigits z ->
+  res_of (py__create_timepoint_from_info__L2 (mops md cfg) (self_of cfg dfs tfs zfs dfmt) Dany (ostr_val fmt)
+            (VDict I) (VBool dur) yp (VDict (zenv te ++ zdict z)) (ostr_val tfmt) (tprop_val tp)) =
+  construct md yr mo dom doy wk dow
+    (nq te "hour_of_day") (ndec te "hour_of_day_decimal") (nq te "minute_of_hour") (ndec te "minute_of_hour_decimal")
+    (nq te "second_of_minute") (ndec te "second_of_minute_decimal")
+    (zn_val z) (trI || has_key "truncated" te) tp (od nedo) (fmt_eff fmt dfmt) dur.
+Proof.
+  intros md cfg dfs tfs zfs dfmt Dany fmt I dur yp te z tfmt tp yr mo dom doy wk dow nedo trI
+         KI Hy Hmo Hdom Hdoy Hwk Hdow Hned Htr ND KT DG TT ZD.
+  assert (TEN : forall k, mem k TIME_IN = false -> lookup_env k te = None).
+  { intros k M. destruct (lookup_env k te) eqn:L; [|reflexivity]. rewrite KT in M; [discriminate|]. rewrite L. discriminate. }
+  assert (IN : forall k, mem k DATE_OUT = false -> dict_get k I = None).
+  { intros k M. destruct (dict_get k I) eqn:L; [|reflexivity]. rewrite KI in M; [discriminate|]. rewrite L. discriminate. }
+  assert (H1 : lookup_env "time_zone_hour" te = None) by (apply TEN; reflexivity).
+  assert (H2 : lookup_env "time_zone_minute" te = None) by (apply TEN; reflexivity).
+  assert (H3 : lookup_env "time_zone_utc" te = None) by (apply TEN; reflexivity).
+  assert (TN : NoDup (keys (TIf te z))) by (apply TIf_nodup; assumption).
+  set (sdf := f_dump_format (self_of cfg dfs tfs zfs dfmt)).
+  (* one lookup of the keyword dictionary *)
+  assert (LK : forall k, dict_get k (fin_dict sdf (ostr_val fmt) (ostr_val tfmt) (tprop_val tp) (VBool dur) (dict_update I (TIf te z))) =
+     if String.eqb k "is_duration" then Some (VBool dur)
+     else if String.eqb k "truncated_dump_format" then match tfmt with Some s => Some (VStr s) | None => None end
+     else if String.eqb k "dump_format" then (if String.eqb (fmt_eff fmt dfmt) "" then match fmt with Some s => Some (VStr s) | None => None end else Some (VStr (fmt_eff fmt dfmt)))
+     else if String.eqb k "truncated_property" then (if String.eqb tp "" then None else Some (VStr tp))
+     else if String.eqb k "truncated" then (if trI || has_key "truncated" te then Some (VBool true) else None)
+     else match (if mem k ZONE3 then zlook z k else tlook te k) with Some v => Some v | None => dict_get k I end).
+  { intros k. unfold fin_dict. rewrite dict_get_set.
+    destruct (String.eqb k "is_duration") eqn:E1; [reflexivity|].
+    rewrite dict_get_opt_set. destruct (String.eqb k "truncated_dump_format") eqn:E2.
+    { apply String.eqb_eq in E2. subst k. destruct tfmt as [s|]; cbn [ostr_val py_is_none]; [reflexivity|].
+      rewrite dict_get_opt_set. cbn [String.eqb Ascii.eqb Bool.eqb]. rewrite dict_get_opt_set. cbn [String.eqb Ascii.eqb Bool.eqb].
+      rewrite dict_get_trset. cbn [String.eqb Ascii.eqb Bool.eqb]. rewrite dict_get_update by exact TN.
+      rewrite TIf_look by assumption. cbn [mem existsb ZONE3 String.eqb Ascii.eqb Bool.eqb orb]. unfold tlook.
+      rewrite TEN by reflexivity. cbn [option_map]. apply IN. reflexivity. }
+    rewrite dict_get_opt_set. destruct (String.eqb k "dump_format") eqn:E3.
+    { apply String.eqb_eq in E3. subst k. unfold eff_fmt, sdf, fmt_eff. cbn [self_of f_dump_format].
+      assert (X : dict_get "dump_format" (opt_set "truncated_property" (tprop_val tp) (trset (dict_update I (TIf te z)))) = None).
+      { rewrite dict_get_opt_set. cbn [String.eqb Ascii.eqb Bool.eqb].
+        rewrite dict_get_trset. cbn [String.eqb Ascii.eqb Bool.eqb]. rewrite dict_get_update by exact TN.
+        rewrite TIf_look by assumption. cbn [mem existsb ZONE3 String.eqb Ascii.eqb Bool.eqb orb]. unfold tlook.
+        rewrite TEN by reflexivity. cbn [option_map]. apply IN. reflexivity. }
+      destruct fmt as [s|]; cbn [ostr_val py_is_none py_truthy].
+      - destruct (String.eqb s ""); reflexivity.
+      - destruct dfmt as [s|]; cbn [ostr_val py_is_none py_truthy]; [|rewrite X; reflexivity].
+        destruct (String.eqb s "") eqn:ES; cbn [negb py_is_none]; [rewrite X; reflexivity|reflexivity]. }
+    rewrite dict_get_opt_set. destruct (String.eqb k "truncated_property") eqn:E4.
+    { apply String.eqb_eq in E4. subst k. unfold tprop_val. destruct (String.eqb tp ""); cbn [py_is_none]; [|reflexivity].
+      rewrite dict_get_trset. cbn [String.eqb Ascii.eqb Bool.eqb]. rewrite dict_get_update by exact TN.
+      rewrite TIf_look by assumption. cbn [mem existsb ZONE3 String.eqb Ascii.eqb Bool.eqb orb]. unfold tlook.
+      rewrite TEN by reflexivity. cbn [option_map]. apply IN. reflexivity. }
+    rewrite dict_get_trset. destruct (String.eqb k "truncated") eqn:E5.
+    { rewrite dict_get_update by exact TN. rewrite TIf_look by assumption.
+      cbn [mem existsb ZONE3 String.eqb Ascii.eqb Bool.eqb orb]. unfold tlook, has_key.
+      destruct (lookup_env "truncated" te) as [s|] eqn:L; cbn [option_map].
+      - destruct (TT s L) as [T1 T2]. unfold tconv, tval.
+        change (ends_with "_decimal" "truncated") with false. cbv iota. rewrite T1. cbn [py_truthy]. rewrite T2.
+        rewrite orb_true_r. reflexivity.
+      - rewrite orb_false_r. subst trI. unfold truthy_opt. destruct (dict_get "truncated" I) as [v|]; [|reflexivity].
+        destruct (py_truthy v); reflexivity. }
+    rewrite dict_get_update by exact TN. rewrite TIf_look by assumption. reflexivity. }
+  rewrite gen8_L2a; [ | exact ND | exact H3 | ].
+  2:{ unfold dict_has. rewrite !dict_get_opt_set. cbn [String.eqb Ascii.eqb Bool.eqb].
+      rewrite dict_get_trset. cbn [String.eqb Ascii.eqb Bool.eqb]. rewrite dict_get_update by exact TN.
+      rewrite TIf_look by assumption. cbn [mem existsb ZONE3 String.eqb Ascii.eqb Bool.eqb orb]. unfold tlook.
+      rewrite TEN by reflexivity. cbn [option_map]. rewrite IN by reflexivity. reflexivity. }
+  fold sdf. set (FIN := fin_dict _ _ _ _ _ _) in *.
+  cbn [op_TimePoint mops]. unfold tp_ctor.
+  assert (KF : forallb (fun kv => mem (fst kv) CTOR_KEYS) FIN = true).
+  { apply keysP_forallb. intros k NE. rewrite LK in NE.
+    repeat match type of NE with
+    | context [String.eqb k ?lit] => let E := fresh "E" in destruct (String.eqb k lit) eqn:E;
+        [apply String.eqb_eq in E; subst k; reflexivity|]
+    end.
+    destruct (mem k ZONE3) eqn:MZ.
+    - unfold ZONE3, mem in MZ. cbn [existsb] in MZ.
+      repeat match type of MZ with
+      | context [String.eqb k ?lit] => let E := fresh "E" in destruct (String.eqb k lit) eqn:E;
+          [apply String.eqb_eq in E; subst k;
+           first [reflexivity | exfalso; apply NE; cbn [zlook String.eqb Ascii.eqb Bool.eqb]; apply IN; reflexivity]|]
+      end. cbn [orb] in MZ. discriminate.
+    - unfold tlook in NE. destruct (lookup_env k te) eqn:L; cbn [option_map] in NE.
+      + assert (M : mem k TIME_IN = true) by (apply KT; rewrite L; discriminate).
+        unfold TIME_IN, TIME_KEYS, mem in M. cbn [existsb app] in M.
+        repeat match type of M with
+        | context [String.eqb k ?lit] => let E := fresh "E" in destruct (String.eqb k lit) eqn:E;
+            [apply String.eqb_eq in E; subst k; reflexivity|]
+        end. cbn [orb] in M. discriminate.
+      + assert (M : mem k DATE_OUT = true) by (apply KI; exact NE).
+        unfold DATE_OUT, mem in M. cbn [existsb] in M.
+        repeat match type of M with
+        | context [String.eqb k ?lit] => let E := fresh "E" in destruct (String.eqb k lit) eqn:E;
+            [apply String.eqb_eq in E; subst k; reflexivity|]
+        end. cbn [orb] in M. discriminate. }
+  rewrite KF. cbn [negb].
+  (* the arguments *)
+  assert (AZ : forall k o, mem k DATE_OUT = true -> mem k TIME_IN = false -> mem k ZONE3 = false ->
+             String.eqb k "truncated" = false -> dict_get k I = option_map VInt o -> kwZ k FIN = Ok o).
+  { intros k o M1 M2 M3 M4 HI. unfold kwZ, FIN. rewrite LK.
+    assert (N : forall lit, mem lit DATE_OUT = false -> String.eqb k lit = false).
+    { intros lit ML. destruct (String.eqb k lit) eqn:E; [|reflexivity]. apply String.eqb_eq in E. subst lit. congruence. }
+    rewrite !N by reflexivity. rewrite M4, M3. unfold tlook. rewrite TEN by exact M2. cbn [option_map]. rewrite HI.
+    destruct o; reflexivity. }
+  rewrite (AZ "year" yr), (AZ "month_of_year" mo), (AZ "day_of_month" dom), (AZ "day_of_year" doy),
+          (AZ "week_of_year" wk), (AZ "day_of_week" dow) by (reflexivity || assumption).
+  cbn [bind].
+  assert (AQ : forall k, mem k ["hour_of_day"; "minute_of_hour"; "second_of_minute"] = true -> kwQ k FIN = Ok (nq te k)).
+  { intros k M. unfold kwQ, FIN, nq. rewrite LK.
+    assert (K : In k TIME_KEYS /\ mem k DATE_OUT = false /\ mem k ZONE3 = false /\ ends_with "_decimal" k = false /\
+                String.eqb k "is_duration" = false /\ String.eqb k "truncated_dump_format" = false /\ String.eqb k "dump_format" = false /\
+                String.eqb k "truncated_property" = false /\ String.eqb k "truncated" = false).
+    { unfold mem in M. cbn [existsb] in M.
+      repeat match type of M with
+      | context [String.eqb k ?lit] => let E := fresh "E" in destruct (String.eqb k lit) eqn:E;
+          [apply String.eqb_eq in E; subst k; cbn; intuition|]
+      end. cbn [orb] in M. discriminate. }
+    destruct K as (K0 & K1 & K2 & K3 & K4 & K5 & K6 & K7 & K8). rewrite K4, K5, K6, K7, K8, K2. unfold tlook.
+    destruct (lookup_env k te) as [s|] eqn:L; cbn [option_map].
+    - unfold tconv, tval. rewrite K3. rewrite tfl_digits by (eapply DG; eassumption). reflexivity.
+    - rewrite IN by exact K1. reflexivity. }
+  assert (AD : forall k, mem k ["hour_of_day_decimal"; "minute_of_hour_decimal"; "second_of_minute_decimal"] = true -> kwQ k FIN = Ok (ndec te k)).
+  { intros k M. unfold kwQ, FIN, ndec. rewrite LK.
+    assert (K : In k TIME_KEYS /\ mem k DATE_OUT = false /\ mem k ZONE3 = false /\ ends_with "_decimal" k = true /\
+                String.eqb k "is_duration" = false /\ String.eqb k "truncated_dump_format" = false /\ String.eqb k "dump_format" = false /\
+                String.eqb k "truncated_property" = false /\ String.eqb k "truncated" = false).
+    { unfold mem in M. cbn [existsb] in M.
+      repeat match type of M with
+      | context [String.eqb k ?lit] => let E := fresh "E" in destruct (String.eqb k lit) eqn:E;
+          [apply String.eqb_eq in E; subst k; cbn; intuition|]
+      end. cbn [orb] in M. discriminate. }
+    destruct K as (K0 & K1 & K2 & K3 & K4 & K5 & K6 & K7 & K8). rewrite K4, K5, K6, K7, K8, K2. unfold tlook.
+    destruct (lookup_env k te) as [s|] eqn:L; cbn [option_map].
+    - unfold tconv, tval. rewrite K3. cbn [py_add]. rewrite tfl_dec by (eapply DG; eassumption). reflexivity.
+    - rewrite IN by exact K1. reflexivity. }
+  rewrite (AQ "hour_of_day"), (AQ "minute_of_hour"), (AQ "second_of_minute"), (AD "hour_of_day_decimal"),
+          (AD "minute_of_hour_decimal"), (AD "second_of_minute_decimal") by reflexivity. cbn [bind].
+  assert (ZH : kwZ "time_zone_hour" FIN = Ok (match zn_val z with Some (h, _) => Some h | None => None end) /\
+               kwZ "time_zone_minute" FIN = Ok (match zn_val z with Some (_, m) => m | None => None end)).
+  { unfold kwZ, FIN. rewrite !LK. cbn [String.eqb Ascii.eqb Bool.eqb mem existsb ZONE3 orb zlook].
+    rewrite !IN by reflexivity.
+    destruct z as [| |h [m|]]; cbn [zn_val option_map zdigits] in *.
+    - split; reflexivity.
+    - split; reflexivity.
+    - destruct ZD as [Zh Zm]. rewrite (tfl_zv h Zh), (tfl_zv m Zm). rewrite !qis_int_qz, !Qfloor_qz. split; reflexivity.
+    - destruct ZD as [Zh _]. rewrite (tfl_zv h Zh). rewrite !qis_int_qz, !Qfloor_qz. split; reflexivity. }
+  destruct ZH as [ZH ZM]. rewrite ZH, ZM. cbn [bind].
+  assert (TR : kwB "truncated" FIN = Ok (trI || has_key "truncated" te)).
+  { unfold kwB, FIN. rewrite LK. cbn [String.eqb Ascii.eqb Bool.eqb]. destruct (trI || has_key "truncated" te); reflexivity. }
+  assert (TPR : kwS "truncated_property" FIN = Ok tp).
+  { unfold kwS, FIN. rewrite LK. cbn [String.eqb Ascii.eqb Bool.eqb]. destruct (String.eqb tp "") eqn:E; [|reflexivity].
+    apply String.eqb_eq in E. subst tp. reflexivity. }
+  assert (NED : kwZ "num_expanded_year_digits" FIN = Ok nedo).
+  { apply AZ; try reflexivity. exact Hned. }
+  assert (FM : kwS "dump_format" FIN = Ok (fmt_eff fmt dfmt)).
+  { unfold kwS, FIN. rewrite LK. cbn [String.eqb Ascii.eqb Bool.eqb]. destruct (String.eqb (fmt_eff fmt dfmt) "") eqn:E; [|reflexivity].
+    apply String.eqb_eq in E. rewrite E. destruct fmt as [s|]; [|reflexivity]. cbn [fmt_eff] in E. subst s. reflexivity. }
+  assert (TDF : exists x, kwS "truncated_dump_format" FIN = Ok x).
+  { unfold kwS, FIN. rewrite LK. cbn [String.eqb Ascii.eqb Bool.eqb]. destruct tfmt; eexists; reflexivity. }
+  assert (DU : kwB "is_duration" FIN = Ok dur).
+  { unfold kwB, FIN. rewrite LK. reflexivity. }
+  destruct TDF as [x TDF]. rewrite TR, TPR, NED, FM, TDF, DU. cbn [bind].
+  assert (ZA : zn_args match zn_val z with Some (h, _) => Some h | None => None end
+                       match zn_val z with Some (_, m) => m | None => None end = zn_val z).
+  { destruct z as [| |h [m|]]; reflexivity. }
+  rewrite ZA. unfold od.
+  destruct (construct md yr mo dom doy wk dow (nq te "hour_of_day") (ndec te "hour_of_day_decimal")
+              (nq te "minute_of_hour") (ndec te "minute_of_hour_decimal") (nq te "second_of_minute")
+              (ndec te "second_of_minute_decimal") (zn_val z) (trI || has_key "truncated" te) tp
+              match nedo with Some v => v | None => 0%Z end (fmt_eff fmt dfmt) dur) as [p|e]; [reflexivity|].
+  destruct e; reflexivity.
+Qed.
+
+(* ---------------- F. L1 + L2: from the state at the first loop to the model's constructor call ---------------- *)
+Definition ival (o : option pyval) : option (option Z) :=
+  match o with
+  | None => Some None
+  | Some (VInt z) => Some (Some z)
+  | Some (VStr s) => if digits_plus s then Some (Some (dnum s)) else None
+  | Some _ => None end.
+Lemma ival_iconv : forall o n, ival o = Some n -> option_map iconv o = option_map VInt n.
+Proof.
+  intros [v|] n H; cbn [ival] in H; [|inversion H; reflexivity].
+  destruct v; try discriminate H.
+  - inversion H. reflexivity.
+  - destruct (digits_plus s) eqn:D; [|discriminate]. inversion H. cbn [option_map]. unfold iconv. cbn [py_int].
+    unfold py_int_str. rewrite (read_Z_digits s D). reflexivity.
+Qed.
+(* a "truncated" entry of the date dictionary: the Boolean of get_info, or a captured literal that is not a number *)
+Definition dtrunc_ok (o : option pyval) : Prop :=
+  match o with None => True | Some (VBool _) => True | Some (VStr s) => read_Z s = None | Some _ => False end.
+Lemma dtrunc_truthy : forall o, dtrunc_ok o -> truthy_opt (option_map iconv o) = truthy_opt o.
+Proof. intros [v|] H; [|reflexivity]. destruct v; try contradiction.
+  - destruct b; reflexivity.
+  - cbn [dtrunc_ok] in H. cbn [option_map]. unfold iconv. cbn [py_int]. unfold py_int_str. rewrite H. reflexivity. Qed.
+
+Theorem gen8_create_tail : forall md cfg dfs tfs zfs dfmt fmt D' dur yp te z tfmt tp
+    (yr mo dom doy wk dow nedo : option Z),
+  NoDup (keys D') -> keysP DATE_OUT D' ->
+  ival (dict_get "year" D') = Some yr -> ival (dict_get "month_of_year" D') = Some mo ->
+  ival (dict_get "day_of_month" D') = Some dom -> ival (dict_get "day_of_year" D') = Some doy ->
+  ival (dict_get "week_of_year" D') = Some wk -> ival (dict_get "day_of_week" D') = Some dow ->
+  ival (dict_get "num_expanded_year_digits" D') = Some nedo -> dtrunc_ok (dict_get "truncated" D') ->
+  NoDup (map fst te) -> (forall k, lookup_env k te <> None -> mem k TIME_IN = true) ->
+  digit_env TIME_KEYS te -> trunc_time_ok te -> zdigits z ->
+  res_of (py__create_timepoint_from_info__L1 (mops md cfg) (self_of cfg dfs tfs zfs dfmt) (VDict D') (ostr_val fmt)
+            (VDict []) (VBool dur) yp (VDict (zenv te ++ zdict z)) (ostr_val tfmt) (tprop_val tp)) =
+  construct md yr mo dom doy wk dow
+    (nq te "hour_of_day") (ndec te "hour_of_day_decimal") (nq te "minute_of_hour") (ndec te "minute_of_hour_decimal")
+    (nq te "second_of_minute") (ndec te "second_of_minute_decimal")
+    (zn_val z) (truthy_opt (dict_get "truncated" D') || has_key "truncated" te) tp (od nedo) (fmt_eff fmt dfmt) dur.
+Proof.
+  intros md cfg dfs tfs zfs dfmt fmt D' dur yp te z tfmt tp yr mo dom doy wk dow nedo
+         ND KD Hy Hmo Hdom Hdoy Hwk Hdow Hned Htr NT KT DG TT ZD.
+  rewrite gen8_L1 by exact ND.
+  assert (LI : forall k, dict_get k (dict_update [] (mapv (fun _ => iconv) D')) = option_map iconv (dict_get k D')).
+  { intros k. rewrite dict_get_update by (rewrite keys_mapv; exact ND). rewrite dict_get_mapv.
+    destruct (dict_get k D'); reflexivity. }
+  apply gen8_L2; try assumption; rewrite ?LI; try (apply ival_iconv; assumption).
+  - intros k NE. rewrite LI in NE. apply KD. destruct (dict_get k D'); [discriminate|exact NE].
+  - apply dtrunc_truthy. exact Htr.
+Qed.
